@@ -1083,8 +1083,9 @@ static int parse_single_cert(psPool_t *pool, const unsigned char **pp,
     Memcpy(cert->sha1KeyHash, sha1KeyHash, SHA1_HASH_SIZE);
 #  endif
 
-    /* As the next three values are optional, we can do a specific test here */
-    if (*p != (ASN_SEQUENCE | ASN_CONSTRUCTED))
+    /* As the next three values are optional, we can do a specific test here
+       (if anything is left of the input at all) */
+    if (p < end && *p != (ASN_SEQUENCE | ASN_CONSTRUCTED))
     {
         if (getImplicitBitString(pool, &p, (uint32) (end - p),
                         IMPLICIT_ISSUER_ID, &cert->uniqueIssuerId,
@@ -5307,7 +5308,8 @@ static int32_t getImplicitBitString(psPool_t *pool, const unsigned char **pp,
     }
 
     p++;
-    if (getAsnLength(&p, len, bitLen) < 0
+    /* one of the len octets, the tag, has been consumed */
+    if (getAsnLength(&p, len - 1, bitLen) < 0
         || *bitLen < 2)
     {
         psTraceCrypto("Malformed implicitBitString\n");
